@@ -64,7 +64,14 @@ def main(argv):
         sh(["git", "-C", "/repo", "worktree", "remove", "--force", str(wt)])
         sh(["/venv/bin/python", str(VERIF / "py" / "extract.py")], cwd=str(VERIF))
         sh(["lake", "build", "rattr_model"], cwd=str(VERIF / "lean"))
-    (d / "eval.json").write_text(json.dumps(out, indent=1))
+    prev = {}
+    if (d / "eval.json").exists():
+        try:
+            prev = json.loads((d / "eval.json").read_text())
+        except Exception:
+            prev = {}
+    prev.update(out)
+    (d / "eval.json").write_text(json.dumps(prev, indent=1))
     return 0
 
 
